@@ -8,7 +8,7 @@ cd /repo && git worktree remove --force $WT 2>/dev/null; git worktree add --deta
 : > $OUT
 for d in ${SEEDED_DIRS:-/verif/seeded_incoming/C*/}; do
   c=$(basename $d)
-  for n in ${NS:-1 2 3 4 5 6 7 8 9}; do
+  for n in ${NS:-1 2 3 4 5 6 7 8 9 10}; do
     p=$d/patch$n.diff; [ -f $d/patch$n.rebased.diff ] && p=$d/patch$n.rebased.diff
     [ -f $p ] || continue
     demo=$d/demo$n/run.sh
